@@ -128,14 +128,16 @@ PLAN = {
               "Row.Add on the last created row incl. separators and attached rows, a pre-built row via NewRowSizedFor+Add+AddRow, rows with height-under-declaring, height-over-declaring, width-mis-declaring and empty-text-zero-width items, a zero-value row, a row holding a NaN float which JSON cannot encode) "
               "x 11 styles (csv, html, json, markdown, the six registered decorations, an unknown decoration) x {wrapper Render(), auto.Render(style)}, each on a freshly built table; plus rapid-generated histories of up to 40 operations "
               "with items of every kind incl. items whose declared size disagrees with the text in every direction (negative, zero, too small, too large). Oracle under recover(): no panic; error => empty string and RenderTo also fails; "
-              "no error => Render equals what RenderTo writes and non-empty output is newline-terminated. Non-trivial: the history has a zero-cell row/header, a late add, a separator first or last, or a size-disagreeing item. "
+              "no error => Render equals what RenderTo writes and non-empty output is newline-terminated. Two more jobs render SEVERAL times on ONE table: every history of 0..2 (thorough 3) symbols followed by every ordered triple over {csv, markdown, utf8-heavy, none, json} through reused wrappers, and rapid-generated histories (incl. item mutation + Cell.Update, repeated headers) with 2..8 renders interleaved at arbitrary points through reused or fresh wrappers or auto.Render. Non-trivial: the history has a zero-cell row/header, a late add, a separator first or last, or a size-disagreeing item. "
               "Enumerated (history, style, route) triples are distinct by construction; random cases by FNV-64 of the case."),
         level_text=("Bounded exhaustive enumeration of build histories crossed with every renderer, style and entry point, with a validity predicate under recover(); random longer histories on top. "
                     "Exploration level; complete within the enumerated bound (reported as enumerated_subruns)."),
         level_note="The validity predicate only demands what the statement says (no panic; error => no text; success => Render == RenderTo and newline-terminated non-empty output); it does not judge the content (C03-C08 do).",
         technique="bounded exhaustive enumeration of operation sequences x renderers + property-based testing (rapid) with a validity predicate under recover()",
-        quick=[enum("enum", "TestEnum", shards=15, env={"VERIF_C09_ENUM_LEN": 4}), rapid("prop", "TestProp", 5000)],
-        thorough=[enum("enum", "TestEnum", shards=15, env={"VERIF_C09_ENUM_LEN": 5}, timeout=3000), rapid("prop", "TestProp", 30000, shards=16)],
+        quick=[enum("enum", "TestEnum", shards=15, env={"VERIF_C09_ENUM_LEN": 4}), rapid("prop", "TestProp", 5000),
+               enum("enumseq", "TestEnumSeq", shards=8, env={"VERIF_C09_SEQ_LEN": 2}), rapid("seq", "TestPropSeq", 3000)],
+        thorough=[enum("enum", "TestEnum", shards=15, env={"VERIF_C09_ENUM_LEN": 5}, timeout=3000), rapid("prop", "TestProp", 30000, shards=16),
+                  enum("enumseq", "TestEnumSeq", shards=16, env={"VERIF_C09_SEQ_LEN": 3}, timeout=3000), rapid("seq", "TestPropSeq", 20000, shards=16)],
     ),
     "C10": dict(
         pkg="c10",
